@@ -224,7 +224,7 @@ def rel_work(rel, tier, rng, viols, keys, counters):
         else:
             nat = cc + '.iban'
             nums = C.corpus(nat, limit=n, rng=rng) + [v for v in C.corpus('iban') if v.upper().replace(' ', '').startswith(cc.upper())][:n]
-            extra = [v for v in c13.iban_generic_only(rng, 40) if v.startswith(cc.upper())]
+            extra = c13.iban_generic_only(rng, 40, only_cc=cc.upper())
             for x in variants(nums, '', rng, tier) + extra:
                 g = C.short(C.outcome(iban.validate, x, check_country=False))
                 nt = val(nat, x)
